@@ -307,3 +307,36 @@ def cex_summary(out, var=None, last=1):
     for st in states[-last:]:
         tail.append(st[:3000])
     return acts, tail
+
+
+def printed_values(out, tag):
+    """all values printed as <<"tag", ...>> by PrintT, parsed by bracket matching"""
+    vals = []
+    pat = re.compile(r'<<\s*"%s",' % re.escape(tag))
+    m = pat.search(out)
+    i = m.start() if m else -1
+    while i >= 0:
+        depth, j = 0, i
+        while j < len(out):
+            if out.startswith("<<", j):
+                depth += 1
+                j += 2
+                continue
+            if out.startswith(">>", j):
+                depth -= 1
+                j += 2
+                if depth == 0:
+                    break
+                continue
+            if out[j] == '"':
+                j += 1
+                while out[j] != '"':
+                    j += 2 if out[j] == "\\" else 1
+            j += 1
+        try:
+            vals.append(parse_tla_value(out[i:j]))
+        except Exception:
+            pass
+        m = pat.search(out, j)
+        i = m.start() if m else -1
+    return vals
